@@ -289,26 +289,28 @@ pub fn plan(prop: &str, tier: &str) -> Option<Plan> {
                     b.add_cases("ebr/guards", e(0).set("depth", depth).set("inside", inside).set("peer", peer), total, 400);
                 }
             }
+            b.add_cases("ebr/guards", e(0).set("orphan", 1), crate::scen::ebr::orphan_cases(if quick { 5 } else { 7 }), 100);
+            b.goal("ebr/guards", "orphan-guard-step");
             b.goal("ebr/guards", "reactivate-sole");
             b.goal("ebr/guards", "reactivate-after-sole");
             b.goal("ebr/guards", "reactivate-after-panic");
             b.goal("ebr/guards", "sequence-ran-inside-closure");
-            rule = "every well-formed sequence of at most d operations over {pin, drop g_i, reactivate g_i, reactivate_after(g_i, f)} with at most 3 live guards and f in {nop, nested pin+drop, panic}, at top level and inside a deferred function running during the thread's own collection, next to a second participant (pinned or not); after every step guard count, pinned bit, pinned epoch and the peer's state are compared with a nesting model";
+            rule = "every well-formed sequence of at most d operations over {pin, drop g_i, reactivate g_i, reactivate_after(g_i, f)} with at most 3 live guards and f in {nop, nested pin+drop, panic}, at top level and inside a deferred function running during the thread's own collection, next to a second participant (pinned or not); plus every sequence of reactivations on a guard that has outlived its last handle; after every step guard count, pinned bit, pinned epoch and the peer's state are compared with a nesting model";
             bounds = json!({"depth": depth, "sequences": total, "contexts": 2, "peer": 2});
         }
         "C17" => {
-            let bq = if quick { 3 } else { 5 };
-            for pr in 0..7 {
+            let bq = if quick { 3 } else { 4 };
+            for pr in 0..9 {
                 b.add("ebr/queue", &[0], &[&[("prog", pr)]], bq);
             }
             if !quick {
-                for pr in 0..7 {
+                for pr in 0..9 {
                     b.add("ebr/queue", &[0], &[&[("prog", pr), ("classes", sched::EBR as i64)]], 2);
                 }
             }
             b.goal("ebr/queue", "history-checked");
             b.goal("ebr/queue", "empty-pop");
-            rule = "every schedule with at most B preemptions (at every access of a queue pointer) of 7 programs of 2-3 threads x 1-2 operations over {push v, try_pop, try_pop_if(even), try_pop_if(<2)} on an empty / one-element / two-element queue; every complete history checked for linearizability against a FIFO with conditional pop by brute force";
+            rule = "every schedule with at most B preemptions (at every access of a queue pointer) of 9 programs of 2-3 threads x 1-2 operations over {push v, try_pop, try_pop_if(even), try_pop_if(<2)} on an empty / one-element / two-element queue; every complete history checked for linearizability against a FIFO with conditional pop by brute force";
             bounds = json!({"threads": "2-3", "preemptions": bq, "classes": ["Raw"]});
         }
         "C18" => {
